@@ -398,7 +398,8 @@ class SimDevice:
         """the bytes a well-behaved device would answer with (None: nothing)"""
         if req["kind"] == "hs":
             if not req["valid"]:
-                return ERROR_PACKET
+                # a handshake with a token the unit does not know: most units answer with an error packet, some stay silent
+                return None if getattr(self, "silent_on_wrong_token", False) else ERROR_PACKET
             nonce = self.nonce_source()
             conn["nonce"] = nonce
             conn["session_key"] = v3_session_key(self.key, nonce)
